@@ -32,19 +32,19 @@ def run(ctx):
     from .c15 import validate as validate_problems
     fams = families()
     screen = ProblemRec("c10-screen")
-    bad = set()
+    screened_out = set()
     for fam in sorted(fams):
         for m in fams[fam][1]:
             k = screen.construct(fam, m, with_meta=False)
             p_ = screen.insts[-1][2]
             if p_ is None:
-                bad.add((fam, m))
+                screened_out.add((fam, m))
                 continue
             try:
                 opt = [float(t) for t in p_.knownOptimum[0].point.floatVariables]
                 mid = [(float(a) + float(b)) / 2 for a, b in zip(p_.lowerBoundOfFloatVariables, p_.upperBoundOfFloatVariables)]
             except Exception:      # noqa: BLE001
-                bad.add((fam, m))
+                screened_out.add((fam, m))
                 continue
             for pt in (opt, mid):
                 screen.eval(k, pt, "obj")
@@ -53,14 +53,14 @@ def run(ctx):
     for f in sfails:
         if f["clause"] in ("EvalRaises", "ConstructRaises"):
             fam, m, _ = screen.insts[f["event"]["inst"] - 1]
-            if (fam, m) not in bad:
-                bad.add((fam, m))
+            if (fam, m) not in screened_out:
+                screened_out.add((fam, m))
         if f["clause"] in ("EvalRaises", "ConstructRaises", "HolderNotReturned", "PointModified"):
             fam, m, _ = screen.insts[f["event"]["inst"] - 1]
             report(ctx, "C10 family=%s member=%d clause=EvaluationRaises" % (fam, m),
                    {"family": fam, "member": m, "clause": f["clause"], "event": {k_: v_ for k_, v_ in f["event"].items() if k_ != "meta"}})
     # ---- Hill, Shekel (and the one-dimensional Rastrigin function)
-    rows = [(f_, k) for f_ in ("Hill", "Shekel") for k in range(1000) if (f_, k) not in bad]
+    rows = [(f_, k) for f_ in ("Hill", "Shekel") for k in range(1000) if (f_, k) not in screened_out]
     jobs = [(i + 1, fam, fn, TV, DELTA_REL, 1e-3, ("min",), None, {"tvlow_rel": TVLOW_REL, "declared": True}) for i, (fam, fn) in enumerate(rows)]
     jobs.append((900001, "Rastrigin", 1, TV, DELTA_REL, 1e-3, ("min",), None, {"tvlow_rel": TVLOW_REL}))
     # binding demonstration: a declared optimum moved by 1% of the range / lowered by 5e-3 must be refuted
@@ -87,7 +87,7 @@ def run(ctx):
     fns = [(d, k) for d in (2, 3, 4, 5) for k in range(1, 101)]
     if qk:
         fns = [(d, k) for d in (2, 3, 4, 5) for k in rng.sample(range(1, 101), 12)]
-    fns = [(d, k) for (d, k) in fns if ("GKLS%d" % d, k) not in bad]
+    fns = [(d, k) for (d, k) in fns if ("GKLS%d" % d, k) not in screened_out]
     grecs = [gkls_record(d, k, rng, None, npts=10) for (d, k) in fns]
     for v in check_gkls(ctx, grecs, "c10gkls"):
         instances["GKLS"] = instances.get("GKLS", 0) + 1
@@ -96,8 +96,8 @@ def run(ctx):
         for cl in bad:
             report(ctx, "C10 family=GKLS dim=%d clause=%s" % (v["dim"], cl), {"family": "GKLS", "dimension": v["dim"], "number": v["nf"], "clause": cl})
     # ---- XSquared, Rastrigin, Shekel4
-    brecs = [xsquared_record(n, rng) for n in range(1, 9) if ("XSquared", n) not in bad] + \
-            [rastrigin_record(n, rng) for n in range(1, 9) if ("Rastrigin", n) not in bad] + [shekel4_record(k, rng) for k in (1, 2, 3) if ("Shekel4", k) not in bad]
+    brecs = [xsquared_record(n, rng) for n in range(1, 9) if ("XSquared", n) not in screened_out] + \
+            [rastrigin_record(n, rng) for n in range(1, 9) if ("Rastrigin", n) not in screened_out] + [shekel4_record(k, rng) for k in (1, 2, 3) if ("Shekel4", k) not in screened_out]
     path = ctx.path("c10bench.ndjson")
     write_ndjson(path, [{k: v for k, v in r.items() if not k.startswith("_")} for r in brecs])
     res = run_tlc("Bench", "SPECIFICATION Spec\nCHECK_DEADLOCK FALSE\n", env={"TRACE_FILE": path}, workers=1, timeout=3000, xmx="4g")
@@ -124,7 +124,7 @@ def run(ctx):
     except TLCError:
         raise
     except Exception as ex:      # noqa: BLE001
-        if not any(f_ in ("Grishagin", "StronginC3") for (f_, _m) in bad):
+        if not any(f_ in ("Grishagin", "StronginC3") for (f_, _m) in screened_out):
             raise
         two = {"skipped": "a member of these families failed the evaluation screen (reported): %s" % type(ex).__name__}
     cov = {
